@@ -103,6 +103,10 @@ def run(tier, selftest=False, only=None):
         n, it = (160, 150) if tier == "quick" else (2400, 400)
         jobs, models = c07.jobs_for(rng, n, ["gillespie", "gillespie", "tauleap"], it, chem_p=0.6)
         c07.trace_check(rep, jobs, models, "chemostat-heavy")
+    if sel("leap"):
+        rng = random.Random(seed * 977 + 35)
+        n, sd, st = (40, 16, 30) if tier == "quick" else (300, 40, 40)
+        c07.leap_drift_check(rep, rng, n, sd, st, "chemostat-heavy", chem_p=0.6)
     if sel("euler"):
         rng = random.Random(seed * 4409 + 34)
         n, steps = (100, 3000) if tier == "quick" else (1000, 30000)
